@@ -288,7 +288,17 @@ inline void violation(const std::string& key, const std::string& detail) {
   uint64_t k = ++v.per_key[key];
   if (k > 5) return;
   Status& st = status();
-  FILE* f = out_file() ? out_file() : stderr;
+#ifdef VF_FUZZ_TARGET
+  // libFuzzer targets: the first violation ends the process; libFuzzer writes the input as an artifact
+  fprintf(stderr, "FUZZ-VIOLATION key=%s\nFUZZ-DETAIL %s\n", key.c_str(), detail.c_str());
+  fflush(stderr);
+  abort();
+#endif
+  FILE* f = out_file();
+  if (!f) {
+    fprintf(stderr, "VIOLATION-DETAIL %s: %s\n", key.c_str(), detail.c_str());
+    return;
+  }
   fprintf(f,
           "{\"t\":\"V\",\"key\":\"%s\",\"detail\":\"%s\",\"stream\":\"%s\",\"gidx\":%" PRIu64
           ",\"local\":%" PRIu64 ",\"note\":\"%s\",\"witness_hex\":\"%s\"}\n",
